@@ -166,15 +166,19 @@ def nudged (sh : Shape F) (v : F) : Bool :=
   | .le b => fabs (v - b) < tiny
   | _ => false
 
-/-- not more than `tiny` away from an open bound: outside the hypotheses of `wrap_preserves_values`
-(`init_` moves open bounds inwards by `tiny`) -/
+/-- the property quantifies over values at least `1e-9` away from a bound (hypothesis `Margin` of
+`all_histories_margin`; `margin_admits` shows it implies the hypotheses of
+`wrap_preserves_values` because `TINY() < 1e-9`).  Values closer to an *open* bound are outside
+the quantifier: `init_` moves open bounds inwards by `TINY()`.  (0.99e-9: the distance of a
+generated value from its bound is `1e-9` up to rounding.) -/
+def marginF : F := 0.99e-9
 def nearOpen (sh : Shape F) (v : F) : Bool :=
   match sh with
-  | .oo a b => v ≤ a + tiny || v ≥ b - tiny
-  | .co _ b => v ≥ b - tiny
-  | .oc a _ => v ≤ a + tiny
-  | .gt a => v ≤ a + tiny
-  | .lt b => v ≥ b - tiny
+  | .oo a b => v < a + marginF || v > b - marginF
+  | .co _ b => v > b - marginF
+  | .oc a _ => v < a + marginF
+  | .gt a => v < a + marginF
+  | .lt b => v > b - marginF
   | _ => false
 
 def shapeMag (sh : Shape F) (v : F) : F :=
@@ -196,6 +200,9 @@ def splitSemi (t : List String) : List (List String) := splitTok ";" t
 def newWVerdict (impl : Option (List String)) (ps : List (Shape F × F)) : String :=
   match impl with
   | none => "-"
+  | some ("exc:constraint" :: _) =>
+    -- wrapping raised although every value is admissible
+    if ps.all (fun (shp, v) => !nearOpen shp v) then "FAIL:wrap_preserves_values" else "-"
   | some t =>
     match splitSemi t with
     | [_, os, fs] =>
